@@ -86,7 +86,7 @@ class Summ:
                     continue
                 if d['loc'] in self.mutated or not isinstance(d.get('init'), dict) or d.get('bindings') or not self.subst:
                     init = self.term(d['init']) if isinstance(d.get('init'), dict) else None
-                    out.append(('decl', d['name'], init) if not d.get('bindings') else ('bind', tuple(d['bindings']), init))
+                    out.append(('decl', self.rw(d['name']), init) if not d.get('bindings') else ('bind', tuple(d['bindings']), init))
                 # pure, never-mutated locals are substituted into their uses
             return tuple(out) if out else None
         if k in ('CXXForRangeStmt',):
@@ -192,3 +192,31 @@ def eff_diff(pa, pb):
     ca = [c for c in pa[0] if c not in pb[0]]
     cb = [c for c in pb[0] if c not in pa[0]]
     return ca, oa, cb, ob
+
+
+def deep_diff(sa, sb, depth=0):
+    """human-readable differences between two summaries, descending into loop bodies."""
+    oa, ob = diff_summaries(sa, sb)
+    if not oa and not ob:
+        return []
+    pa, pb = first_difference(oa, ob)
+    if pa is None or pb is None:
+        return ['only in one: ' + show_path(pa or pb)]
+    ca, ea, cb, eb = eff_diff(pa, pb)
+    out = []
+    loops_a = [e for e in ea if isinstance(e, tuple) and e and e[0] in ('foreach', 'ForStmt', 'WhileStmt', 'DoStmt')]
+    loops_b = [e for e in eb if isinstance(e, tuple) and e and e[0] in ('foreach', 'ForStmt', 'WhileStmt', 'DoStmt')]
+    if ca or cb:
+        out.append('guards differ: %s  vs  %s' % ([_show_cond(c) for c in ca], [_show_cond(c) for c in cb]))
+    plain_a = [e for e in ea if e not in loops_a]
+    plain_b = [e for e in eb if e not in loops_b]
+    if plain_a or plain_b:
+        out.append('effects differ: %s  vs  %s' % ([_show_eff(e)[:400] for e in plain_a], [_show_eff(e)[:400] for e in plain_b]))
+    if len(loops_a) == len(loops_b) and depth < 6:
+        for la, lb in zip(loops_a, loops_b):
+            if la[:-1] != lb[:-1]:
+                out.append('loop headers differ: %s  vs  %s' % (show(la[:-1]), show(lb[:-1])))
+            out.extend(['in loop %s: %s' % (show(la[1]) if la[0] == 'foreach' else la[0], d) for d in deep_diff(la[-1], lb[-1], depth + 1)])
+    elif loops_a or loops_b:
+        out.append('loops differ in number: %d vs %d' % (len(loops_a), len(loops_b)))
+    return out
